@@ -256,3 +256,439 @@ Proof.
   - destruct (resume_text h wd (w_loc w) (w_rem w)); cbn; repeat split.
   - destruct (resume_text h wd (w_loc w) (w_rem w)); cbn; split; intros H; try congruence; split; reflexivity.
 Qed.
+
+(* ---------- what holds of every history, whatever the peer does ---------- *)
+Definition doc_ok (rets : list (N * seqid)) (d : store) : Prop :=
+  forall x c, d = Some x -> d_seq x = Some c -> exists s, c = canon s /\ In (d_hash x, s) rets.
+
+Lemma doc_ok_mono rets rets' d : (forall p, In p rets -> In p rets') -> doc_ok rets d -> doc_ok rets' d.
+Proof. intros Hm Hd x c Hx Hc. destruct (Hd x c Hx Hc) as [s [E Hin]]. exists s; split; [exact E|apply Hm; exact Hin]. Qed.
+
+Lemma doc_ok_none rets : doc_ok rets None.
+Proof. intros x c H; discriminate. Qed.
+
+Lemma doc_ok_holds rets d h s : holds d h s -> In (h, s) rets -> doc_ok rets d.
+Proof.
+  intros [r ->] Hin x c Hx Hc. inversion Hx; subst; clear Hx. cbn in Hc. inversion Hc; subst.
+  exists s; split; [reflexivity|exact Hin].
+Qed.
+
+Lemma doc_ok_copy rets d r : doc_ok rets d -> doc_ok rets (Some (mkDoc r (hash_of d) (seq_of d))).
+Proof.
+  intros Hd x c Hx Hc. inversion Hx; subst; clear Hx. cbn [d_seq d_hash] in *.
+  destruct d as [y|]; cbn [seq_of hash_of] in *; [|discriminate]. exact (Hd y c eq_refl Hc).
+Qed.
+
+Lemma doc_ok_touch rets d : doc_ok rets d -> doc_ok rets (touch d).
+Proof.
+  intros Hd x c Hx Hc. destruct d as [y|]; cbn [touch] in Hx; [|discriminate].
+  inversion Hx; subst; clear Hx. cbn [d_seq d_hash] in *. exact (Hd y c eq_refl Hc).
+Qed.
+
+Record UInv (w : world) (g : ghost) : Prop := {
+  ui_lists : Inv (m_st (w_mem w)) (g_Ei g) (g_Pi g);
+  ui_loc : doc_ok (g_rets g) (w_loc w);
+  ui_rem : doc_ok (g_rets g) (w_rem w)
+}.
+
+Lemma UInv_init : UInv winit ghost0.
+Proof. constructor; cbn; [exact Inv_init|apply doc_ok_none|apply doc_ok_none]. Qed.
+
+Lemma pstep_PL thr w lo : lo <> Tick ->
+  pstep thr w (PL lo) =
+  (mkW (set_mem_st (w_mem w) (fst (step thr (m_st (w_mem w)) lo)) (bump lo (m_stats (w_mem w)))) (w_loc w) (w_rem w), None, None).
+Proof. destruct lo; intros H; try reflexivity. congruence. Qed.
+
+Lemma gstep_PL w lo r g : lo <> Tick ->
+  gstep w (PL lo) r g =
+  mkG (tag (m_hash (w_mem w)) (op_expected lo) ++ g_E g) (tag (m_hash (w_mem w)) (op_processed (m_st (w_mem w)) lo) ++ g_P g)
+      (op_expected lo ++ g_Ei g) (op_processed (m_st (w_mem w)) lo ++ g_Pi g) (g_rets g).
+Proof. destruct lo; intros H; try reflexivity. congruence. Qed.
+
+Definition is_tick (o : pop) : option (bool * bool) :=
+  match o with PL Tick => Some (false, false) | PTick a b => Some (a, b) | _ => None end.
+
+Lemma pstep_tick thr w o a b : is_tick o = Some (a, b) -> pstep thr w o = (tick thr a b w, None).
+Proof. destruct o as [lo| | | | | | |]; try discriminate; [destruct lo; try discriminate|]; intros H; inversion H; reflexivity. Qed.
+
+Lemma gstep_tick w o a b r g : is_tick o = Some (a, b) ->
+  gstep w o r g = match r with
+                  | Some s => mkG (g_E g) (g_P g) (g_Ei g) (g_Pi g) ((m_hash (w_mem w), s) :: g_rets g)
+                  | None => g
+                  end.
+Proof. destruct o as [lo| | | | | | |]; try discriminate; [destruct lo; try discriminate|]; intros H; reflexivity. Qed.
+
+Lemma Inv_sort st E P : Inv st E P -> Inv (mkSt (sort (expected st)) (processed st) (lookup st)) E P.
+Proof.
+  intros [I1 I2 I3]. constructor; cbn [expected processed].
+  - intros e He. destruct (I1 e He) as [H|H]; [left; apply sort_perm; exact H|right; exact H].
+  - exact I2.
+  - intros x Hx. apply I3. apply sort_perm. exact Hx.
+Qed.
+
+(* the position a restart resumes from is zero or the text of a value some tick computed under the same hash *)
+Definition resume_from_rets (h : N) (rets : list (N * seqid)) (r : seqid) : Prop :=
+  r = zero_seq \/ exists s, r = canon s /\ In (h, s) rets.
+
+Lemma pstep_uinv thr w g o w' r st : UInv w g -> pstep thr w o = (w', r, st) ->
+  UInv w' (gstep w o r g) /\
+  (forall s, r = Some s -> safe_at s (g_Ei g) (g_Pi g)) /\
+  (forall h wd, o = PRestart h wd -> resume_from_rets h (g_rets g) (m_last (w_mem w'))).
+Proof.
+  intros [U1 U2 U3] Hstep.
+  destruct (is_tick o) as [[a b]|] eqn:Htick.
+  { rewrite (pstep_tick _ _ _ _ _ Htick) in Hstep. rewrite (gstep_tick _ _ _ _ _ _ Htick).
+    destruct (tick thr a b w) as [w1 r1] eqn:Ht. inversion Hstep; subst; clear Hstep.
+    destruct (tick_ok _ _ _ _ _ _ Ht) as [[ou [Hl Hr]] _ _ Hloc Hrem _ _ _ _ _ _ _].
+    destruct (step_inv _ _ _ _ _ _ _ U1 Hl) as [HI Hsafe]. cbn [op_expected op_processed app] in *.
+    split; [|split].
+    - destruct r as [s|].
+      + constructor; cbn [g_Ei g_Pi g_rets].
+        * exact HI.
+        * destruct (Hloc s eq_refl) as [-> |Hh].
+          -- eapply doc_ok_mono; [|exact U2]. intros p Hp; right; exact Hp.
+          -- eapply doc_ok_holds; [exact Hh|left; reflexivity].
+        * destruct (Hrem s eq_refl) as [-> |Hh].
+          -- eapply doc_ok_mono; [|exact U3]. intros p Hp; right; exact Hp.
+          -- eapply doc_ok_holds; [exact Hh|left; reflexivity].
+      + destruct (tick_ok _ _ _ _ _ _ Ht) as [_ _ Hnone _ _ _ _ _ _ _ _ _].
+        destruct (Hnone eq_refl) as [E1 [E2 _]]. constructor; [exact HI|rewrite E1; exact U2|rewrite E2; exact U3].
+    - intros s E. apply Hsafe. rewrite Hr. exact E.
+    - intros h wd E; subst o; discriminate. }
+  destruct o as [lo|ld rd|h wd| | | | |]; try discriminate.
+  - assert (Hnt : lo <> Tick) by (intros ->; discriminate).
+    rewrite (pstep_PL _ _ _ Hnt) in Hstep. rewrite (gstep_PL _ _ _ _ Hnt). inversion Hstep; subst; clear Hstep.
+    destruct (step thr (m_st (w_mem w)) lo) as [st' ou] eqn:Hl.
+    destruct (step_inv _ _ _ _ _ _ _ U1 Hl) as [HI _].
+    split; [|split; [discriminate|discriminate]].
+    constructor; cbn [w_mem w_loc w_rem set_mem_st m_st g_Ei g_Pi g_rets fst]; assumption.
+  - cbn [pstep] in Hstep. inversion Hstep; subst; clear Hstep. cbn [gstep].
+    destruct (restart_ok h wd w) as [Hlast _ Hlists [cp Hroll] _ _].
+    destruct (rollback_ok _ _ _ _ _ _ _ _ Hroll) as [_ _ _ _ Hl Hr _ _ _].
+    split; [|split; [discriminate|]].
+    + constructor; cbn [g_Ei g_Pi g_rets].
+      * rewrite Hlists. exact Inv_init.
+      * destruct Hl as [-> |[r ->]]; [exact U2|apply doc_ok_copy; exact U3].
+      * destruct Hr as [-> |[r ->]]; [exact U3|apply doc_ok_copy; exact U2].
+    + intros h0 wd0 E; inversion E; subst h0 wd0; clear E. rewrite Hlast.
+      destruct (resume_text_ok h wd (w_loc w) (w_rem w)) as [_ [_ [[-> |[H1 [H2 [Hp _]]]] _]]]; [left; reflexivity|].
+      destruct (resume_text h wd (w_loc w) (w_rem w)) as [c|] eqn:Hc; [|left; reflexivity].
+      right. cbn [val_of].
+      destruct Hp as [Hp|Hp]; symmetry in Hp.
+      * destruct (w_loc w) as [x|] eqn:Hx; cbn [seq_of hash_of] in *; [|discriminate].
+        destruct (U2 x c eq_refl Hp) as [s [E Hin]]. exists s; split; [exact E|rewrite <- H1; exact Hin].
+      * destruct (w_rem w) as [x|] eqn:Hx; cbn [seq_of hash_of] in *; [|discriminate].
+        destruct (U3 x c eq_refl Hp) as [s [E Hin]]. exists s; split; [exact E|rewrite <- H2; exact Hin].
+  - cbn [pstep] in Hstep. inversion Hstep; subst; clear Hstep. cbn [gstep].
+    split; [|split; discriminate]. constructor; cbn [w_mem w_loc w_rem]; [exact U1|apply doc_ok_none|exact U3].
+  - cbn [pstep] in Hstep. inversion Hstep; subst; clear Hstep. cbn [gstep].
+    split; [|split; discriminate]. constructor; cbn [w_mem w_loc w_rem]; [exact U1|exact U2|apply doc_ok_none].
+  - cbn [pstep] in Hstep. inversion Hstep; subst; clear Hstep. cbn [gstep].
+    split; [|split; discriminate]. constructor; cbn [w_mem w_loc w_rem]; [exact U1|apply doc_ok_touch; exact U2|exact U3].
+  - cbn [pstep] in Hstep. inversion Hstep; subst; clear Hstep. cbn [gstep].
+    split; [|split; discriminate]. constructor; cbn [w_mem w_loc w_rem]; [exact U1|exact U2|apply doc_ok_touch; exact U3].
+  - cbn [pstep] in Hstep. inversion Hstep; subst; clear Hstep. cbn [gstep].
+    split; [|split; discriminate]. constructor; cbn [w_mem w_loc w_rem set_mem_st m_st]; [apply Inv_sort; exact U1|exact U2|exact U3].
+Qed.
+
+Lemma pstep_ret_tick thr w o w' s st : pstep thr w o = (w', Some s, st) -> exists a b, is_tick o = Some (a, b).
+Proof.
+  destruct (is_tick o) as [[a b]|] eqn:Ht; [intros _; exists a, b; reflexivity|].
+  destruct o as [lo| | | | | | |]; try discriminate; try (cbn [pstep]; intros H; inversion H; fail).
+  assert (Hnt : lo <> Tick) by (intros ->; discriminate).
+  rewrite (pstep_PL _ _ _ Hnt). intros H; inversion H.
+Qed.
+
+Lemma prun_uinv thr ops : forall w g, UInv w g ->
+  forall sn, In sn (prun thr w g ops) ->
+    UInv (ps_w sn) (ps_g sn) /\
+    (forall s, ps_ret sn = Some s -> safe_at s (g_Ei (ps_g sn)) (g_Pi (ps_g sn))) /\
+    (forall h wd, ps_op sn = PRestart h wd -> resume_from_rets h (g_rets (ps_g sn)) (m_last (w_mem (ps_w sn)))).
+Proof.
+  induction ops as [|o ops IH]; intros w g HU sn Hin; cbn [prun] in Hin; [destruct Hin|].
+  destruct (pstep thr w o) as [[w' r] st] eqn:Hstep.
+  destruct (pstep_uinv _ _ _ _ _ _ _ HU Hstep) as [HU' [Hsafe Hres]].
+  destruct Hin as [<-|Hin]; [|exact (IH _ _ HU' sn Hin)].
+  cbn [ps_w ps_g ps_ret ps_op]. split; [exact HU'|split].
+  - intros s E. subst r. destruct (pstep_ret_tick _ _ _ _ _ _ Hstep) as [a [b Ht]].
+    rewrite (gstep_tick _ _ _ _ _ _ Ht). cbn [g_Ei g_Pi]. apply Hsafe; reflexivity.
+  - intros h wd E. subst o. cbn [gstep g_rets]. apply (Hres h wd); reflexivity.
+Qed.
+
+(* ---------- what holds when the peer keeps its side ([peer_ok]) ---------- *)
+Lemma in_tag h' x h l : In (h', x) (tag h l) <-> h' = h /\ In x l.
+Proof.
+  unfold tag. rewrite in_map_iff. split.
+  - intros [y [E Hy]]. inversion E; subst. split; [reflexivity|exact Hy].
+  - intros [-> Hx]. exists x; split; [reflexivity|exact Hx].
+Qed.
+
+Record GInv (w : world) (g : ghost) : Prop := {
+  gi_u : UInv w g;
+  gi_Ei : forall x, In x (g_Ei g) -> In (m_hash (w_mem w), x) (g_E g);
+  gi_Pi : forall x, In x (g_Pi g) -> In (m_hash (w_mem w), x) (g_P g);
+  gi_canon : forall h x, In (h, x) (g_E g) -> canon x = x;
+  (* every value a tick ever computed under h is handled and strictly below everything unhandled under h *)
+  gi_rets : forall h s, In (h, s) (g_rets g) ->
+              In (h, s) (g_E g) /\ In (h, s) (g_P g) /\
+              forall e, In (h, e) (g_E g) -> ~ In (h, e) (g_P g) -> before s e = true;
+  (* the current Checkpointer has been told of everything unhandled below what it has been told *)
+  gi_gap : forall x e, In x (g_Ei g) -> In (m_hash (w_mem w), e) (g_E g) -> ~ In (m_hash (w_mem w), e) (g_P g) ->
+              before e x = true -> In e (g_Ei g)
+}.
+
+Lemma GInv_init : GInv winit ghost0.
+Proof. constructor; cbn; try tauto; try exact UInv_init; try (intros h s []).
+Qed.
+
+Lemma pstep_ginv thr w g o w' r st :
+  GInv w g -> (forall lo, o = PL lo -> peer_step_ok (m_hash (w_mem w)) g lo) ->
+  pstep thr w o = (w', r, st) -> GInv w' (gstep w o r g).
+Proof.
+  intros HG Hpeer Hstep. pose proof HG as [G0 G1 G2 G3 G4 G5].
+  destruct (pstep_uinv _ _ _ _ _ _ _ G0 Hstep) as [HU' [Hsafe _]].
+  destruct (is_tick o) as [[a b]|] eqn:Htick.
+  { rewrite (pstep_tick _ _ _ _ _ Htick) in Hstep. rewrite (gstep_tick _ _ _ _ _ _ Htick) in *.
+    destruct (tick thr a b w) as [w1 r1] eqn:Ht. inversion Hstep; subst; clear Hstep.
+    destruct (tick_ok _ _ _ _ _ _ Ht) as [_ Hh _ _ _ _ _ _ _ _ _ _].
+    destruct r as [s|]; [|constructor; rewrite ?Hh; assumption].
+    constructor; cbn [g_E g_P g_Ei g_Pi g_rets] in *; rewrite ?Hh; try assumption.
+    intros h s0 [E|Hin]; [|apply G4; exact Hin]. inversion E; subst h s0; clear E.
+    destruct (Hsafe s eq_refl) as [HsE [HsP Hall]].
+    split; [apply G1; exact HsE|]. split; [apply G2; exact HsP|].
+    intros e HeE HeP. destruct (before s e) eqn:Hb; [reflexivity|exfalso].
+    destruct (sle_cases e s Hb) as [Hbe| ->]; [|apply HeP; apply G2; exact HsP].
+    apply HeP. apply G2. apply Hall; [|left; exact Hbe].
+    exact (G5 s e HsE HeE HeP Hbe). }
+  destruct o as [lo|ld rd|h wd| | | | |]; try discriminate.
+  - assert (Hnt : lo <> Tick) by (intros ->; discriminate).
+    specialize (Hpeer lo eq_refl).
+    rewrite (pstep_PL _ _ _ Hnt) in Hstep. rewrite (gstep_PL _ _ _ _ Hnt) in *. inversion Hstep; subst; clear Hstep.
+    set (h := m_hash (w_mem w)) in *.
+    constructor; cbn [w_mem set_mem_st m_hash g_E g_P g_Ei g_Pi g_rets]; fold h.
+    + exact HU'.
+    + intros x Hx. apply in_or_app. apply in_app_or in Hx. destruct Hx as [Hx|Hx]; [left; apply in_tag; tauto|right; apply G1; exact Hx].
+    + intros x Hx. apply in_or_app. apply in_app_or in Hx. destruct Hx as [Hx|Hx]; [left; apply in_tag; tauto|right; apply G2; exact Hx].
+    + intros h0 x Hx. apply in_app_or in Hx. destruct Hx as [Hx|Hx]; [|eapply G3; exact Hx].
+      apply in_tag in Hx. destruct Hx as [_ Hx]. destruct (Hpeer x Hx) as [Hc _]. exact Hc.
+    + intros h0 s Hs. destruct (G4 h0 s Hs) as [HsE [HsP Hbelow]].
+      split; [apply in_or_app; right; exact HsE|]. split; [apply in_or_app; right; exact HsP|].
+      intros e HeE HeP. assert (HeP0 : ~ In (h0, e) (g_P g)) by (intros H; apply HeP; apply in_or_app; right; exact H).
+      apply in_app_or in HeE. destruct HeE as [HeE|HeE]; [|apply Hbelow; assumption].
+      apply in_tag in HeE. destruct HeE as [-> HeE].
+      destruct (Hpeer e HeE) as [_ [[Hp|Hord] _]]; [contradiction|].
+      specialize (Hord s Hs). destruct (sle_cases s e Hord) as [Hb| ->]; [exact Hb|contradiction].
+    + intros x e Hx HeE HeP Hb.
+      assert (HeP0 : ~ In (h, e) (g_P g)) by (intros H; apply HeP; apply in_or_app; right; exact H).
+      apply in_or_app. apply in_app_or in HeE. destruct HeE as [HeE|HeE]; [left; apply in_tag in HeE; tauto|].
+      apply in_app_or in Hx. destruct Hx as [Hx|Hx].
+      * destruct (Hpeer x Hx) as [_ [_ Hgap]]. specialize (Hgap e HeE HeP0 Hb).
+        apply in_app_or in Hgap. tauto.
+      * right. exact (G5 x e Hx HeE HeP0 Hb).
+  - cbn [pstep] in Hstep. inversion Hstep; subst; clear Hstep. cbn [gstep] in *.
+    constructor; cbn [g_E g_P g_Ei g_Pi g_rets]; try assumption.
+    + intros x Hx; destruct Hx.
+    + intros x Hx; destruct Hx.
+    + intros x e Hx; destruct Hx.
+  - cbn [pstep] in Hstep. inversion Hstep; subst; clear Hstep. cbn [gstep] in *. constructor; assumption.
+  - cbn [pstep] in Hstep. inversion Hstep; subst; clear Hstep. cbn [gstep] in *. constructor; assumption.
+  - cbn [pstep] in Hstep. inversion Hstep; subst; clear Hstep. cbn [gstep] in *. constructor; assumption.
+  - cbn [pstep] in Hstep. inversion Hstep; subst; clear Hstep. cbn [gstep] in *. constructor; assumption.
+  - cbn [pstep] in Hstep. inversion Hstep; subst; clear Hstep. cbn [gstep] in *. constructor; assumption.
+Qed.
+
+Lemma prun_ginv thr ops : forall w g, GInv w g -> peer_ok_from thr w g ops ->
+  forall sn, In sn (prun thr w g ops) -> GInv (ps_w sn) (ps_g sn).
+Proof.
+  induction ops as [|o ops IH]; intros w g HG Hpeer sn Hin; cbn [prun peer_ok_from] in *; [destruct Hin|].
+  destruct (pstep thr w o) as [[w' r] st] eqn:Hstep. destruct Hpeer as [Hp Hrest].
+  assert (HG' : GInv w' (gstep w o r g)).
+  { eapply pstep_ginv; [exact HG| |exact Hstep]. intros lo ->. exact Hp. }
+  destruct Hin as [<-|Hin]; [exact HG'|exact (IH _ _ HG' Hrest sn Hin)].
+Qed.
+
+(* RESTART NEVER SKIPS *)
+Lemma restart_never_skips thr ops : peer_ok thr ops ->
+  forall sn h wd, In sn (prun0 thr ops) -> ps_op sn = PRestart h wd ->
+  forall e, In (h, e) (g_E (ps_g sn)) -> ~ In (h, e) (g_P (ps_g sn)) ->
+    sle (m_last (w_mem (ps_w sn))) e /\
+    (m_last (w_mem (ps_w sn)) = zero_seq \/ before (m_last (w_mem (ps_w sn))) e = true).
+Proof.
+  intros Hpeer sn h wd Hin Hop e HeE HeP.
+  pose proof (prun_ginv thr ops winit ghost0 GInv_init Hpeer sn Hin) as [_ _ _ G3 G4 _].
+  destruct (prun_uinv thr ops winit ghost0 UInv_init sn Hin) as [_ [_ Hres]].
+  destruct (Hres h wd Hop) as [-> |[s [Hr Hs]]].
+  - split; [apply sle_zero|left; reflexivity].
+  - destruct (G4 h s Hs) as [HsE [_ Hbelow]]. rewrite (G3 h s HsE) in Hr. rewrite Hr.
+    pose proof (Hbelow e HeE HeP) as Hb. split; [apply before_asym; exact Hb|right; exact Hb].
+Qed.
+
+(* ---------- statistics and status ---------- *)
+Definition counts_ok (m : ckp) (acc : list pop) : Prop :=
+  n_exp (m_stats m) = count_exp acc /\ n_proc (m_stats m) = count_proc acc /\ n_known (m_stats m) = count_known acc.
+
+Lemma count_exp_snoc acc o : count_exp (acc ++ [o]) =
+  match o with PL (Expect l) => count_exp acc + len l | PL (ExpectDocs l) => count_exp acc + N.of_nat (length l) | _ => count_exp acc end.
+Proof. unfold count_exp. rewrite fold_left_app. reflexivity. Qed.
+Lemma count_proc_snoc acc o : count_proc (acc ++ [o]) =
+  match o with PL (Processed _) | PL (ProcessedDoc _ _) => count_proc acc + 1 | _ => count_proc acc end.
+Proof. unfold count_proc. rewrite fold_left_app. reflexivity. Qed.
+Lemma count_known_snoc acc o : count_known (acc ++ [o]) =
+  match o with PL (Known l) => count_known acc + len l | _ => count_known acc end.
+Proof. unfold count_known. rewrite fold_left_app. reflexivity. Qed.
+
+Lemma pstep_counts thr w o w' r st acc : counts_ok (w_mem w) acc -> pstep thr w o = (w', r, st) ->
+  counts_ok (w_mem w') (if is_restart o then [] else acc ++ [o]).
+Proof.
+  intros [C1 [C2 C3]] Hstep. unfold counts_ok.
+  destruct (is_tick o) as [[a b]|] eqn:Htick.
+  { rewrite (pstep_tick _ _ _ _ _ Htick) in Hstep.
+    destruct (tick thr a b w) as [w1 r1] eqn:Ht. inversion Hstep; subst; clear Hstep.
+    destruct (tick_ok _ _ _ _ _ _ Ht) as [_ _ _ _ _ _ _ _ _ _ _ [T1 [T2 [T3 _]]]].
+    rewrite T1, T2, T3.
+    destruct o as [lo| | | | | | |]; try discriminate; [destruct lo; try discriminate|]; cbn [is_restart];
+      rewrite count_exp_snoc, count_proc_snoc, count_known_snoc; tauto. }
+  destruct o as [lo|ld rd|h wd| | | | |]; try discriminate; cbn [is_restart].
+  - assert (Hnt : lo <> Tick) by (intros ->; discriminate).
+    rewrite (pstep_PL _ _ _ Hnt) in Hstep. inversion Hstep; subst; clear Hstep.
+    rewrite count_exp_snoc, count_proc_snoc, count_known_snoc.
+    cbn [w_mem set_mem_st m_stats]. destruct lo; cbn [bump n_exp n_proc n_known]; try congruence; repeat split; congruence.
+  - cbn [pstep] in Hstep. inversion Hstep; subst; clear Hstep.
+    destruct (restart_ok h wd w) as [_ _ _ _ [R1 [R2 [R3 _]]] _]. rewrite R1, R2, R3. repeat split.
+  - cbn [pstep] in Hstep. inversion Hstep; subst; clear Hstep.
+    rewrite count_exp_snoc, count_proc_snoc, count_known_snoc. cbn [w_mem]. tauto.
+  - cbn [pstep] in Hstep. inversion Hstep; subst; clear Hstep.
+    rewrite count_exp_snoc, count_proc_snoc, count_known_snoc. cbn [w_mem]. tauto.
+  - cbn [pstep] in Hstep. inversion Hstep; subst; clear Hstep.
+    rewrite count_exp_snoc, count_proc_snoc, count_known_snoc. cbn [w_mem]. tauto.
+  - cbn [pstep] in Hstep. inversion Hstep; subst; clear Hstep.
+    rewrite count_exp_snoc, count_proc_snoc, count_known_snoc. cbn [w_mem]. tauto.
+  - cbn [pstep] in Hstep. inversion Hstep; subst; clear Hstep.
+    rewrite count_exp_snoc, count_proc_snoc, count_known_snoc. cbn [w_mem set_mem_st m_stats]. tauto.
+Qed.
+
+Lemma pexec_counts thr ops : forall w acc, counts_ok (w_mem w) acc ->
+  counts_ok (w_mem (pexec thr w ops)) (since_restart acc ops).
+Proof.
+  induction ops as [|o ops IH]; intros w acc HC; cbn [pexec fold_left since_restart]; [exact HC|].
+  destruct (pstep thr w o) as [[w' r] st] eqn:Hstep. cbn [fst].
+  pose proof (pstep_counts _ _ _ _ _ _ _ HC Hstep) as HC'.
+  destruct (is_restart o); exact (IH _ _ HC').
+Qed.
+
+Lemma stats_count_history thr ops :
+  counts_ok (w_mem (pexec thr winit ops)) (since_restart [] ops).
+Proof. apply pexec_counts. repeat split. Qed.
+
+(* the status sequence is what the next tick would hand to _setCheckpoints, else the last checkpoint *)
+Lemma safe_processed_next thr m :
+  safe_processed m =
+  match fst (fst (update_lists thr (expected (m_st m)) (processed (m_st m)))) with
+  | Some s => s
+  | None => m_last m
+  end.
+Proof.
+  unfold safe_processed, update_lists, trim.
+  destruct (span_proc (sort (expected (m_st m))) (processed (m_st m))) as [pre rest]. cbn [fst].
+  destruct (last_opt pre) as [x|].
+  - destruct (thr <? len rest); [destruct (compact rest _)|]; reflexivity.
+  - destruct (thr <? len (sort (expected (m_st m)))); [destruct (compact _ _)|]; reflexivity.
+Qed.
+
+Lemma status_safe m E P : Inv (m_st m) E P -> safe_processed m = m_last m \/ safe_at (safe_processed m) E P.
+Proof.
+  intros HI. rewrite (safe_processed_next 0 m).
+  destruct (step 0 (m_st m) Tick) as [st' ou] eqn:Hstep.
+  destruct (step_inv _ _ _ _ _ _ _ HI Hstep) as [_ Hsafe]. cbn [op_expected op_processed app] in Hsafe.
+  cbn [step] in Hstep. destruct (update_lists 0 (expected (m_st m)) (processed (m_st m))) as [[r e] p].
+  inversion Hstep; subst; clear Hstep. cbn [fst ret obs] in *.
+  destruct r as [s|]; [right; apply Hsafe; reflexivity|left; reflexivity].
+Qed.
+
+Lemma prun_pre thr ops : forall w g, UInv w g -> forall sn, In sn (prun thr w g ops) ->
+  exists g0, UInv (ps_pre sn) g0 /\ ps_g sn = gstep (ps_pre sn) (ps_op sn) (ps_ret sn) g0 /\
+             pstep thr (ps_pre sn) (ps_op sn) = (ps_w sn, ps_ret sn, ps_status sn).
+Proof.
+  induction ops as [|o ops IH]; intros w g HU sn Hin; cbn [prun] in Hin; [destruct Hin|].
+  destruct (pstep thr w o) as [[w' r] st] eqn:Hstep.
+  destruct Hin as [<-|Hin].
+  - exists g. split; [exact HU|split; [reflexivity|exact Hstep]].
+  - destruct (pstep_uinv _ _ _ _ _ _ _ HU Hstep) as [HU' _]. exact (IH _ _ HU' sn Hin).
+Qed.
+
+Lemma status_is_safe thr ops sn x : In sn (prun0 thr ops) -> ps_status sn = Some (Some x) ->
+  ps_op sn = PStatus /\
+  x = safe_processed (w_mem (ps_pre sn)) /\
+  (x = m_last (w_mem (ps_pre sn)) \/ safe_at x (g_Ei (ps_g sn)) (g_Pi (ps_g sn))).
+Proof.
+  intros Hin Hst. destruct (prun_pre thr ops winit ghost0 UInv_init sn Hin) as [g0 [[U1 _ _] [Hg Hstep]]].
+  rewrite Hst in Hstep.
+  destruct (ps_op sn) as [lo|ld rd|h wd| | | | |] eqn:Hop.
+  - destruct (is_tick (PL lo)) as [[a b]|] eqn:Ht.
+    + rewrite (pstep_tick _ _ _ _ _ Ht) in Hstep. inversion Hstep.
+    + assert (Hnt : lo <> Tick) by (intros ->; discriminate). rewrite (pstep_PL _ _ _ Hnt) in Hstep. inversion Hstep.
+  - cbn [pstep] in Hstep. inversion Hstep.
+  - cbn [pstep] in Hstep. inversion Hstep.
+  - cbn [pstep] in Hstep. inversion Hstep.
+  - cbn [pstep] in Hstep. inversion Hstep.
+  - cbn [pstep] in Hstep. inversion Hstep.
+  - cbn [pstep] in Hstep. inversion Hstep.
+  - cbn [pstep] in Hstep. inversion Hstep as [[Hw Hr Hh]]. cbn [gstep] in Hg. rewrite Hg.
+    unfold high_seq in Hh. destruct (0 <? Seq (safe_processed (w_mem (ps_pre sn)))); inversion Hh; subst x.
+    split; [reflexivity|]. split; [reflexivity|]. apply status_safe. exact U1.
+Qed.
+
+(* ---------- boolean reflection of the peer contract (for the non-vacuity example) ---------- *)
+Definition pair_mem (h : N) (x : seqid) (l : list (N * seqid)) : bool :=
+  existsb (fun p => (fst p =? h) && seqid_eqb (snd p) x) l.
+
+Lemma pair_mem_In h x l : pair_mem h x l = true <-> In (h, x) l.
+Proof.
+  unfold pair_mem. rewrite existsb_exists. split.
+  - intros [[h' y] [Hin Hb]]. cbn [fst snd] in Hb. apply andb_true_iff in Hb. destruct Hb as [H1 H2].
+    apply N.eqb_eq in H1. apply seqid_eqb_eq in H2. subst. exact Hin.
+  - intros Hin. exists (h, x). split; [exact Hin|]. cbn [fst snd]. rewrite N.eqb_refl. cbn. apply seqid_eqb_eq. reflexivity.
+Qed.
+
+Definition peer_step_okb (h : N) (g : ghost) (lo : op) : bool :=
+  forallb (fun x =>
+    seqid_eqb (canon x) x &&
+    (pair_mem h x (g_P g) || forallb (fun p => negb (fst p =? h) || negb (before x (snd p))) (g_rets g)) &&
+    forallb (fun p => negb (fst p =? h) || pair_mem h (snd p) (g_P g) || negb (before (snd p) x) ||
+                      mem (snd p) (g_Ei g ++ op_expected lo)) (g_E g))
+  (op_expected lo).
+
+Lemma peer_step_okb_ok h g lo : peer_step_okb h g lo = true -> peer_step_ok h g lo.
+Proof.
+  unfold peer_step_okb, peer_step_ok. rewrite forallb_forall. intros H x Hx.
+  specialize (H x Hx). apply andb_true_iff in H. destruct H as [H H3]. apply andb_true_iff in H. destruct H as [H1 H2].
+  split; [apply seqid_eqb_eq; exact H1|]. split.
+  - apply orb_true_iff in H2. destruct H2 as [H2|H2]; [left; apply pair_mem_In; exact H2|right].
+    rewrite forallb_forall in H2. intros s Hs. specialize (H2 (h, s) Hs). cbn [fst snd] in H2.
+    rewrite N.eqb_refl in H2. cbn in H2. destruct (before x s); [discriminate|reflexivity].
+  - rewrite forallb_forall in H3. intros e HeE HeP Hb. specialize (H3 (h, e) HeE). cbn [fst snd] in H3.
+    rewrite N.eqb_refl, Hb in H3. cbn in H3.
+    destruct (pair_mem h e (g_P g)) eqn:Hp; [exfalso; apply HeP; apply pair_mem_In; exact Hp|].
+    cbn in H3. apply mem_In. exact H3.
+Qed.
+
+Fixpoint peer_okb_from (thr : N) (w : world) (g : ghost) (ops : list pop) : bool :=
+  match ops with
+  | [] => true
+  | o :: rest =>
+      (match o with PL lo => peer_step_okb (m_hash (w_mem w)) g lo | _ => true end) &&
+      match pstep thr w o with
+      | (w', r, _) => peer_okb_from thr w' (gstep w o r g) rest
+      end
+  end.
+
+Lemma peer_okb_from_ok thr ops : forall w g, peer_okb_from thr w g ops = true -> peer_ok_from thr w g ops.
+Proof.
+  induction ops as [|o ops IH]; intros w g H; cbn [peer_okb_from peer_ok_from] in *; [exact I|].
+  apply andb_true_iff in H. destruct H as [H1 H2]. split.
+  - destruct o; try exact I. apply peer_step_okb_ok. exact H1.
+  - destruct (pstep thr w o) as [[w' r] st]. apply IH. exact H2.
+Qed.
+
+Lemma peer_okb_ok thr ops : peer_okb_from thr winit ghost0 ops = true -> peer_ok thr ops.
+Proof. apply peer_okb_from_ok. Qed.
